@@ -45,7 +45,9 @@ fn explore(api: &Api, seed: u64, cx: &mut Cx) {
     cx.context_done();
     let pws: [&[u8]; 3] = [b"correct horse", b"", b"another password, longer"];
     let idus: [Option<Vec<u8>>; 2] = [None, Some(b"user".to_vec())];
-    let idss: [Option<Vec<u8>>; 3] = [None, Some(b"server".to_vec()), Some(spk.clone())];
+    // server identities: absent, a name, the genuine key spelled out, and a name that happens to be exactly as long as
+    // a public key (a value that could be mistaken for one)
+    let idss: [Option<Vec<u8>>; 4] = [None, Some(b"server".to_vec()), Some(spk.clone()), Some(vec![b's'; spk.len()])];
     let ctxs: [Option<Vec<u8>>; 2] = [None, Some(b"c".to_vec())];
     for pw in pws {
         for idu in &idus {
@@ -119,7 +121,7 @@ fn explore(api: &Api, seed: u64, cx: &mut Cx) {
             }
         }
     }
-    cx.sample(json!({"suite": api.name(), "setups": setups.iter().map(|s| s.0).collect::<Vec<_>>(), "settings": "3 passwords x 2 client ids x 3 server ids x 2 contexts"}));
+    cx.sample(json!({"suite": api.name(), "setups": setups.iter().map(|s| s.0).collect::<Vec<_>>(), "settings": "3 passwords x 2 client ids x 4 server ids x 2 contexts"}));
 }
 
 pub fn run(tier: Tier, seed: u64) -> i32 {
@@ -130,8 +132,8 @@ pub fn run(tier: Tier, seed: u64) -> i32 {
         property: "C06",
         tier,
         seed,
-        rule: "complete product: 36 registration/context settings x 5 serving setups (genuine, 3 key/seed splices, unrelated server) x the serving party's identity choices; each is one login against the stolen file".into(),
-        bounds: json!({"suites": 20, "setups": 5, "settings": 36, "impostor_identity_variants": 4, "quick_equals_thorough": true}),
+        rule: "complete product: 48 registration/context settings x 5 serving setups (genuine, 3 key/seed splices, unrelated server) x the serving party's identity choices; each is one login against the stolen file".into(),
+        bounds: json!({"suites": 20, "setups": 5, "settings": 48, "impostor_identity_variants": 4, "quick_equals_thorough": true}),
         assumptions: vec!["impostor setups are built by splicing serialized ServerSetup fields (seed, static key)".into()],
         exhaustive: true,
         crosscheck: json!(null),
